@@ -3,6 +3,7 @@
 package pipeline
 
 import (
+	"sync"
 	"sync/atomic"
 	"unsafe"
 )
@@ -81,4 +82,38 @@ func verifTraceGet(s *stream, event *Event) {
 		return
 	}
 	verifTrace("s.get", uint64(event.Offset), event.SeqID)
+}
+
+// child events made by processor.Spawn carry no offset: they are identified in trace lines by
+// VerifChildBit | parent offset << 12 | index, remembered here (only while a trace sink is set).
+var verifChildIDs sync.Map
+
+// VerifChildBit marks the id of a child event.
+const VerifChildBit = uint64(1) << 62
+
+func verifSpawn(parent, child *Event, idx int, procID uint64) {
+	if verifTraceFn.Load() == nil {
+		return
+	}
+	id := VerifChildBit | uint64(parent.Offset)<<12 | uint64(idx)
+	verifChildIDs.Store(child, id)
+	verifTrace("p.spawnkid", id, procID)
+}
+
+// verifEventID is the event's offset, or the id given by verifSpawn to a child event.
+func verifEventID(e *Event) uint64 {
+	if e.IsChildKind() {
+		if id, ok := verifChildIDs.Load(e); ok {
+			return id.(uint64)
+		}
+	}
+	return uint64(e.Offset)
+}
+
+// VerifEventID is verifEventID for harness code.
+func VerifEventID(e *Event) uint64 { return verifEventID(e) }
+
+// VerifForgetChildren drops the remembered child ids (between harness cases).
+func VerifForgetChildren() {
+	verifChildIDs.Range(func(k, _ any) bool { verifChildIDs.Delete(k); return true })
 }
